@@ -171,6 +171,8 @@ def classify(detail, mspec=None, stage=None):
     restricted state has no filter-passing choice' is recognised by its CAUSE (the model's filters leave
     some restricted state without passing choice in some period, and the crash happens while simulating):
     the exception that results depends on how many agents and segments are involved."""
+    if "is not in list" in str(detail) and "'next_" in str(detail):
+        return "auxiliary_state"          # a stochastic auxiliary state: productmap over a next_ variable the value function lacks
     for name, pats in KNOWN.items():
         if any(p in str(detail) for p in pats):
             if name == "agent_without_admissible_restricted_choice" and mspec is not None \
